@@ -175,6 +175,19 @@ def model(node, vals, ended):
         else:
             var = 0.0
         return [(END, canon(math.sqrt(var) if op == 'fstddev' else var))]
+    if op == 'dist_update':
+        return None   # no model of the histogram itself; covered by the streaming/reduce relation and the differentials
+    if op == 'sort':
+        if not ended:
+            return []
+        kf = F.MAPS[node['key']][0] if node.get('key') else (lambda v: v)
+        return [(END, canon(x)) for x in sorted(vals, key=kf, reverse=bool(node.get('reverse')))]
+    if op == 'to_deque':
+        if not ended:
+            return []
+        if node.get('extend'):
+            return [(END, canon(x)) for v in vals for x in v]
+        return [(END, canon(v)) for v in vals]
     if op == 'first':
         return [(0, canon(vals[0]))] if vals else []
     if op == 'take':
@@ -329,6 +342,11 @@ def _cmp_life(node, path, inl, outl, ended, findings, mode):
     ev = [c for _, c in exp]
     gv = [c for _, _, c in got]
     eq = (lambda a, b: close(a, b)) if op in TOL_OPS else (lambda a, b: a == b)
+    if mode == 'plain' and outl.eg is None and len(gv) < len(ev):
+        # an ordinary observable whose subscriber went away (take/first downstream completed and disposed
+        # the chain): what was delivered must be a prefix of the expected output
+        exp = exp[:len(gv)]
+        ev = ev[:len(gv)]
     if len(ev) != len(gv) or not all(eq(a, b) for a, b in zip(ev, gv)):
         findings.append(Finding('values', op, path, {'node': node, 'input': [v for _, _, v in inl.items], 'ended': ended,
                                                      'expected': ev, 'got': gv, 'key': inl.key}))
